@@ -7,7 +7,7 @@ set -u
 PROP=$1; VAR=$2; SRC=$3
 . /verif/env.sh
 WT=/var/tmp/seedwt.$$
-PIN=66eea0b
+PIN=${4:-66eea0b}
 git -C /repo worktree add -q --detach $WT $PIN || exit 2
 trap 'git -C /repo worktree remove --force $WT >/dev/null 2>&1' EXIT
 cd $WT
@@ -36,13 +36,13 @@ echo "$PROP-$VAR: demo_on_pinned=$BASE build=$BUILD existing_tests=$TESTS demo_w
 if [ $OK = yes ]; then
   D=/verif/seeded/$PROP-$VAR; mkdir -p $D
   cp $SRC/patch.diff $D/patch.diff; cp $DEMO $D/$(basename $DEMO).txt; cp $SRC/NOTES.md $D/NOTES.md 2>/dev/null; cp $SRC/DEMO.md $D/DEMO.md
-  python3 - "$PROP" "$VAR" "$PKGDIR" "$RUNPAT" "$PKGS" "$D" <<'PY'
+  python3 - "$PROP" "$VAR" "$PKGDIR" "$RUNPAT" "$PKGS" "$D" "$(git -C /repo rev-parse --short $PIN)" <<'PY'
 import json,sys
-prop,var,pkgdir,runpat,pkgs,d=sys.argv[1:]
+prop,var,pkgdir,runpat,pkgs,d,pin=sys.argv[1:]
 notes=open(d+'/NOTES.md').read() if True else ''
 json.dump({"property":prop,"variant":var,"breaks":prop,"source":"independent sub-agent given only the property text and a scratch worktree",
  "needs_to_manifest":"see NOTES.md","demo":{"copy_to":pkgdir,"run":"go test -vet=off -count=1 -run '%s' ./%s"%(runpat,pkgdir)},
- "confirmed":{"pinned_commit":"66eea0b","demo_passes_on_pinned":True,"builds_with_change":True,"existing_tests_of_touched_packages_pass_with_change":pkgs.split(),"demo_fails_with_change":True},
+ "confirmed":{"pinned_commit":pin,"demo_passes_on_pinned":True,"builds_with_change":True,"existing_tests_of_touched_packages_pass_with_change":pkgs.split(),"demo_fails_with_change":True},
  "detected_by":None},open(d+'/meta.json','w'),indent=1)
 PY
 fi
